@@ -316,6 +316,8 @@ func checkC07(w *World, r *Report) {
 	ruleTermination(w, r, "C07")
 	ruleDecorWidthAccounting(w, r, "C07")
 	ruleSpacers(w, r, "C07")
+	ruleStatisticsFaithful(w, r, "C07")
+	ruleRenderSize(w, r, "C07")
 	ruleOptionTable(w, r, "C07", map[string][3]string{"WithWidth": {tPState, "reqWidth", "param"}, "BarWidth": {tBState, "reqWidth", "param"}, "BarFillerTrim": {tBState, "trimSpace", "true"}})
 	ruleFillGuards(w, r, "C07")
 	ruleDecorExchange(w, r, "C07")
